@@ -48,21 +48,30 @@ def run(lo, hi, seed, res):
         head_len = (2 if use_jumpi and cond < 256 else 0) + 3 + 1
         if use_jumpi and cond >= 256:
             head_len = 33 + 3 + 1
-        total = head_len + len(body)
+        # optional re-entrant prefix with a JUMPDEST at offset 0: the first pass sets a memory flag,
+        # a jump back to 0 then takes the exit pad (so jumping to destination 0 is observable)
+        with_prefix = rng.random() < 0.35
+        plen = 11 if with_prefix else 0
+        total = plen + head_len + len(body) + (9 if with_prefix else 0)
+        exit_at = plen + head_len + len(body)
+        prefix = (bytes([0x5B, 0x5F, 0x51, 0x61]) + exit_at.to_bytes(2, "big") + bytes([0x57, 0x60, 0x01, 0x5F, 0x52])) if with_prefix else b""
+        suffix = bytes([0x5B, 0x60, 0xEE, 0x5F, 0x52, 0x60, 0x20, 0x5F, 0xF3]) if with_prefix else b""
         # after a not-taken JUMPI execution falls into the body
         targets = list(range(0, total + 2))
         if len(targets) > 24:
             # all jumpdest bytes (valid or hidden) + a random sample of the rest
-            interesting = [head_len + j for j, b in enumerate(body) if b == 0x5B]
-            targets = sorted(set(interesting + rng.sample(targets, 12) + [total, total + 1, 0, head_len - 1]))
+            interesting = [plen + head_len + j for j, b in enumerate(body) if b == 0x5B]
+            targets = sorted(set(interesting + rng.sample(targets, 12) + [total, total + 1, 0, plen + head_len - 1, exit_at]))
         for t in targets:
             src = []
             if use_jumpi:
                 src.append(("push", cond, 1 if cond < 256 else 32))
             src.append(("push", t, 2))
             src.append("JUMPI" if use_jumpi else "JUMP")
-            code = asm(src) + body
+            code = prefix + asm(src) + body + suffix
             assert len(code) == total, (len(code), total)
+            if with_prefix and t == 0:
+                res["counters"]["jump_to_offset_zero"] += 1
             res["counters"]["jump_programs"] += 1
             res["counters"]["evaluations"] += 1
             # reference
@@ -83,7 +92,8 @@ def run(lo, hi, seed, res):
             p = r.paths[0]
             out = p.out if isinstance(p.out, bytes) else (b"" if p.out is None else None)
             kindmap = {None: "ok", "InvalidJumpDestError": "badjump", "InvalidOpcode": "invalid",
-                       "StackUnderflowError": "underflow", "Revert": "revert"}
+                       "StackUnderflowError": "underflow", "Revert": "revert", "OutOfGasError": "oog",
+                       "StackOverflowError": "overflow", "OutOfBoundsRead": "oob", "WriteInStaticContext": "static"}
             got = (kindmap.get(p.error, p.error), out if p.error is None else b"")
             taken = (not use_jumpi) or cond != 0
             if taken and want[0] == "badjump":
